@@ -50,6 +50,7 @@ type Prog struct {
 	fieldStores map[fieldKey][]*ssa.Store
 	fieldStoresOK bool
 	fnKeyMemo map[string]*ssa.Function
+	roleMemo  map[*ssa.Function]string
 	chanUsesMemo []chanUse
 	cnameMemo map[*ssa.Function]string
 	basesMemo map[ssa.Value]map[ssa.Value]bool
